@@ -81,6 +81,28 @@ def makeSubKey (kw : KwArgs) : SubKey :=
   | [] => none
   | _ :: _ => some (sortKw kw)
 
+/-! ### `del d[k]` on a dict: no entry under `k` remains -/
+
+def eraseAll {κ α : Type} [DecidableEq κ] (l : List (κ × α)) (k : κ) : List (κ × α) :=
+  l.filter fun p => p.1 ≠ k
+
+theorem get?_eraseAll {κ α : Type} [DecidableEq κ] (l : List (κ × α)) (k k2 : κ) :
+    AL.get? (eraseAll l k) k2 = if k = k2 then none else AL.get? l k2 := by
+  induction l with
+  | nil => simp [eraseAll]
+  | cons p r ih =>
+    obtain ⟨k', v⟩ := p
+    unfold eraseAll at ih ⊢
+    by_cases h1 : k' = k
+    · subst h1
+      by_cases h2 : k' = k2
+      · subst h2; simpa using ih
+      · simp [h2] at ih ⊢; exact ih
+    · by_cases h2 : k = k2
+      · subst h2; simp [h1] at ih ⊢; exact ih
+      · simp [h1, h2] at ih ⊢
+        by_cases h3 : k' = k2 <;> simp [h3, ih]
+
 /-! ### the two-level cache -/
 
 abbrev Cache (V : Type) := List (String × List (SubKey × V))
@@ -107,13 +129,13 @@ def lookupOrStore (c : Cache V) (name : String) (sk : SubKey) (fresh : V) : Cach
   | none => (c.store name sk fresh, fresh, true)
 
 /-- `destroyRepresentation(name)` without keyword arguments -/
-def destroyName (c : Cache V) (name : String) : Cache V := AL.erase c name
+def destroyName (c : Cache V) (name : String) : Cache V := eraseAll c name
 
 /-- `destroyRepresentation(name, **kwargs)` with keyword arguments -/
 def destroyOne (c : Cache V) (name : String) (sk : SubKey) : Cache V :=
   match AL.get? c name with
   | none => c
-  | some d => AL.set c name (AL.erase d sk)
+  | some d => AL.set c name (eraseAll d sk)
 
 /-- `_destroyRepresentationsForNotification`: every factory whose destructive spec is hit -/
 def evict (facs : List (String × Destr)) (c : Cache V) (notif : String) : Cache V :=
